@@ -494,7 +494,7 @@ prop("C01", ["l1", "l2", "key", "conc"], "exploration",
      CONC_RULE + "Under concurrency every execution returns a unique value (invalidate_on verdicts scripted per call): a call must not be served a value once a later execution for the same key has stored another one and returned. " + L1_RULE + L2_RULE + "KEY LEVEL (shared with C02): adversarial argument pairs on 50 signature shapes; a call served from another tuple's entry is reported here as 'a value stored for other arguments'. Non-trivial = a lookup of a stored key (value must be the last one stored for that key); distinct = distinct (configuration, key, hit-count class, store size).",
      COMMON_ASSUME, ("C01", "lookups_of_stored_key"))
 prop("C05", ["l1", "l2", "conc"], "exploration",
-     L1_RULE + L2_RULE + CONC_RULE + "Under concurrency (functions with max_memory only, plain stores): at quiescence the cached bytes plus the largest value that was stored and is gone must exceed max_memory (nothing is evicted while everything fits, under every serialisation). Values include one whose estimator reports 0 bytes. Values: String, Vec<u8>, Vec<String>, Option<String>, Result<String,String>, (String,Vec<u32>), Box<String>, a user type with its own estimator; sizes around M/3, M/2, M-1, M, M+1, >M, with slack capacity. Sizes are measured by an independent footprint oracle. Non-trivial = a store under memory pressure; distinct = distinct (configuration, residents, order shape, size class).",
+     L1_RULE + L2_RULE + CONC_RULE + "Big-memory probe (l2mon): four functions with max_memory = 64KB hold a hundred ~600-byte residents, then receive 50-60 KB vectors of 1100-1400 unevenly sized strings, so that one store displaces dozens of entries (more than 64); after every call the footprints of the listed entries, computed by the harness from the arguments, must sum to at most 65536. " + "Under concurrency (functions with max_memory only, plain stores): at quiescence the cached bytes plus the largest value that was stored and is gone must exceed max_memory (nothing is evicted while everything fits, under every serialisation). Values include one whose estimator reports 0 bytes. Values: String, Vec<u8>, Vec<String>, Option<String>, Result<String,String>, (String,Vec<u32>), Box<String>, a user type with its own estimator; sizes around M/3, M/2, M-1, M, M+1, >M, with slack capacity. Sizes are measured by an independent footprint oracle. Non-trivial = a store under memory pressure; distinct = distinct (configuration, residents, order shape, size class).",
      COMMON_ASSUME + ["the footprint oracle (vhooks::Footprint) is the intended meaning of 'inline size plus owned heap capacity'"], ("C05", "stores_under_memory_pressure"))
 prop("C06", ["l1", "l2"], "exploration",
      L1_RULE + L2_RULE + "Non-trivial = a lookup of an entry while a ttl is configured; distinct = distinct (configuration, quarter-second age bucket, store size, exactly-on-a-second?).",
@@ -503,16 +503,16 @@ prop("C07", ["l1", "l2", "conc"], "exploration",
      L1_RULE + L2_RULE + CONC_RULE + "After a concurrent phase the order in which old entries leave under fresh stores must not contradict the completed calls (LRU: last uses; FIFO: last stores). " + "Non-trivial = an overflowing store under FIFO/LRU whose victim set is compared with 'oldest stored' / 'least recently used'; distinct = distinct (configuration, residents, recency/insertion order shape, size class).",
      COMMON_ASSUME, ("C07", "victims_checked_limit_pressure"))
 prop("C08", ["l1", "l2", "conc"], "exploration",
-     L1_RULE + L2_RULE + CONC_RULE + "After a concurrent phase an entry that was certainly served from the cache must not be evicted while a certainly never-hit entry (sync caches: the newcomer) is available. " + "Non-trivial = an overflowing store under LFU/ARC/TLRU whose victim must be a score minimiser over the residents or over residents+newcomer; distinct = distinct (configuration, order shape, hit-count vector).",
+     L1_RULE + L2_RULE + CONC_RULE + "After a concurrent phase an entry that was certainly served from the cache must not be evicted while a certainly never-hit entry (sync caches: the newcomer) is available; a free-running hammer (8 threads, 160 000 overlapping hits of one resident of an async LFU cache against 140 000 hits of the other) checks that the entry with the most successful lookups stays. L1 adds hot-key histories whose hit counts pass 2^8 and 2^16. " + "Non-trivial = an overflowing store under LFU/ARC/TLRU whose victim must be a score minimiser over the residents or over residents+newcomer; distinct = distinct (configuration, order shape, hit-count vector).",
      COMMON_ASSUME + ["sync engines always hold a zero-score newcomer, so for them the check only establishes that a zero-score entry was evicted (stated in DESIGN.md C08)"], ("C08", "victims_checked_with_unique_resident_minimiser"))
 prop("C16", ["l1", "l2", "conc", "miri"], "exploration",
      L1_RULE + "Every operation runs under catch_unwind in a build with overflow checks and debug assertions. Non-trivial/distinct = configurations of the full product visited (each with overflow-heavy histories). " + REENT_RULE,
      COMMON_ASSUME, ("C16", "ops_under_catch_unwind"))
 prop("C02", ["key", "l2"], "exploration",
-     "KEY LEVEL: 50 signature shapes (1-5 arguments over integers, floats, bool, char, String, &str, tuples, Option, nested Option, Vec, slices, Debug-derived struct and enum, &self methods with string-bearing receivers), each as #[cache] and #[cache_async], bodies return a fresh serial. "
+     "KEY LEVEL: 63 signature shapes (1-5 arguments over integers, floats, bool, char, String, &str, tuples, Option, nested Option, Vec, slices, Debug-derived struct and enum, &self methods with string-bearing receivers), each as #[cache] and #[cache_async], bodies return a fresh serial. "
      "Pairs of argument tuples a != b (structural/bitwise inequality, NaN excluded) are drawn from an adversarial alphabet (| \" \\ ' , ( ) [ ] space newline NUL DEL, the words Some/None, quote-separator-quote sequences), by single-position mutation, and by boundary shifting "
      "(render two neighbouring arguments with separators '', '|', ',', ' ', '\"|\"', ', ', move the boundary, re-parse); f(a); f(b); f(a) must execute twice and serve a its own serial; every 32 pairs the number of listed key strings must equal the number of distinct tuples stored. "
-     "Strings: one in ten is several hundred bytes long and is mutated in its last characters; hand-written shapes cover parameter names a macro might use itself, parameters bound through patterns, and an argument whose CacheableKey calls another cached function. Non-trivial/distinct = distinct (function, a, b) pairs. " + L2_RULE + "There, a learned slot->key-string map must stay injective.",
+     "Strings: one in ten is several hundred bytes long and is mutated in its last characters; hand-written shapes cover parameter names a macro might use itself, parameters bound through patterns, an argument whose CacheableKey calls another cached function, and item forms (underscore-prefixed parameter names, explicit lifetimes, generics with bounds and where-clause, a method of a generic type, thirteen arguments, attributed items in a nested module). Non-trivial/distinct = distinct (function, a, b) pairs. " + L2_RULE + "There, a learned slot->key-string map must stay injective.",
      COMMON_ASSUME + ["'differ' means structural inequality of the argument values (0.0 and -0.0 differ; NaN is excluded)"], ("C02", "pairs"))
 prop("C17", ["conc", "l2", "miri"], "exploration",
      CONC_RULE + "Non-trivial = a schedule that ran to completion or to a diagnosed deadlock. " + REENT_RULE + L2_RULE,
@@ -526,7 +526,7 @@ prop("C03", ["l2", "conc"], "exploration",
      CONC_RULE + L2_RULE + EXTRAS_RULE + "Focus: functions with no limit/ttl/max_memory/cache_if/invalidate_on. Non-trivial = a repeat call for an argument tuple already stored (must not run the body; once per thread for scope=thread); at the end of every history without invalidations the execution count per distinct tuple must be exactly 1. Distinct = distinct (function, tuple, stored-before?, thread).",
      COMMON_ASSUME, ("C03", "repeat_calls_on_unbounded_caches"))
 prop("C09", ["l2", "conc"], "exploration",
-     CONC_RULE + "For Result functions on unbounded, never-invalidated caches: no body execution may be invoked after an execution that returned Ok has returned (Err outcomes scripted per call, also concurrently). " + L2_RULE + "Focus: functions returning Result / std::result::Result without cache_if (all scopes, policies, limits, with and without max_memory). Outcomes follow an arbitrary Ok/Err script per call. Non-trivial = a scripted Err outcome; distinct = distinct (function, tuple, cached?, outcome, previous non-store reason).",
+     CONC_RULE + "For Result functions on unbounded, never-invalidated caches: no body execution may be invoked after an execution that returned Ok has returned (Err outcomes scripted per call, also concurrently). " + L2_RULE + "Six Result functions stamped out by a macro_rules! template (return type passed as a $ret:ty fragment) are probed with the direct rule 'a failing call runs the body'. Focus: functions returning Result / std::result::Result without cache_if (all scopes, policies, limits, with and without max_memory). Outcomes follow an arbitrary Ok/Err script per call. Non-trivial = a scripted Err outcome; distinct = distinct (function, tuple, cached?, outcome, previous non-store reason).",
      COMMON_ASSUME, ("C09", "err_outcomes_scripted"))
 prop("C10", ["l2"], "exploration",
      L2_RULE + "Focus: functions with cache_if. Verdicts follow an arbitrary accept/reject script; every invocation is logged with key and value digest. Non-trivial = a rejecting verdict; distinct = distinct (function, tuple, cached?, verdict, outcome).",
@@ -538,7 +538,7 @@ prop("C12", ["l2", "conc"], "exploration",
      CONC_RULE + "Under concurrency: once a matching group invalidation has returned, no call may be served an entry that certainly dates from before it (the key was seen by a listing probe that finished before the invalidation began and no execution for it was invoked later, or every execution had already returned). " + L2_RULE + "Focus: tag/event/dependency/name requests (including names nothing declares, names declared in another table, names of unused or metadata-less caches) in many short-lived processes, so that 'used at least once' varies; expected matches are computed from the generator's metadata table over the whole corpus. Non-trivial = a request; distinct = distinct (kind, name, set of matching used caches).",
      COMMON_ASSUME, ("C12", "group_invalidation_requests"))
 prop("C13", ["l2", "conc"], "exploration",
-     CONC_RULE + "Under concurrency: on caches that cannot evict, an entry whose key no conditional invalidation of the scenario selects must stay cached once its storing call has returned (no later execution). " + L2_RULE + "Focus: invalidate_with / invalidate_all_with with predicates = arbitrary subsets of the stored keys (per cache), followed by further history so that leftover bookkeeping shows as a wrong later eviction. Non-trivial = a conditional invalidation; distinct = distinct (function, entries before, subset).",
+     CONC_RULE + "Group requests also run over three dependency chains in which a cache declares another cache's name as its dependency (kept in one group): a request reaches only the caches that declare the requested label themselves. " + "Under concurrency: on caches that cannot evict, an entry whose key no conditional invalidation of the scenario selects must stay cached once its storing call has returned (no later execution). " + L2_RULE + "Focus: invalidate_with / invalidate_all_with with predicates = arbitrary subsets of the stored keys (per cache), followed by further history so that leftover bookkeeping shows as a wrong later eviction. Non-trivial = a conditional invalidation; distinct = distinct (function, entries before, subset).",
      COMMON_ASSUME, ("C13", "conditional_invalidations"))
 prop("C14", ["l2", "conc"], "exploration",
      CONC_RULE + L2_RULE + "Focus: every function called from 2-4 worker threads in random serial orders; scope=thread functions have one model per thread, global/async ones a single shared model. Non-trivial = a call on a multi-thread history; distinct = distinct (function, tuple, calling thread, thread that stored it, cached?).",
